@@ -36,6 +36,14 @@ func (t *Task) OwnerForVerif() string {
 	return t.GetEnvironmentId().String()
 }
 
+// ActiveForVerif: the core has seen the task running (status ACTIVE).
+func (t *Task) ActiveForVerif() bool {
+	if t == nil {
+		return false
+	}
+	return t.status == ACTIVE // read without the lock: only ever called under the cooperative scheduler
+}
+
 // RosterForVerif snapshots the roster.
 func (m *Manager) RosterForVerif() Tasks { return m.roster.getTasks() }
 
